@@ -1,9 +1,25 @@
 (* C02 — satisfiable with the caller's assets implies a satisfaction is found.
-   Full statement (script level; NOT yet proved in this form; kept visible):
+   Full statement (script level):
      forall well-typed m (B), assets A, environment e:
        (exists w built from A, accepts e (enc m) w = true) ->
        satisfy ke se f true root_has_sig m = Some _                              (malleable mode)
      and, for sane m whose hash preimages are all known, the same for satisfy .. false .. (non-malleable mode).
+
+   PROVED AT THE SCRIPT LEVEL (with Theorem B, accepts <-> the exact relation Rsat, Properties/TheoremB.v):
+   * C02_script_complete_mall / C02_script_complete_mall_spends: for every well-typed B fragment (all
+     constructors except raw_pk_h), if the Script semantics accepts SOME stack w that is built from
+     material the caller holds ([built_from e ke A m w]: every valid signature in w for key k, or for a
+     key hashing to k's hash160, means A holds a signature for k; every image of m that a 32-byte element
+     of w opens has a preimage in A; every lock of m the transaction meets is held by A), then the
+     malleable-mode model returns Some bs -- and bs spends.  Hypotheses otherwise as at table level
+     (linked, locks_compatible, thresh_fit, wf, empty signatures never verify).
+   * C02_script_complete_nonmall / _spends: the same for the non-malleable mode on sane scripts
+     ("m", "s", nm_wf: all preimages of the script's hashes known).
+   * C02_script_table_entry: the canonicalisation: accepted stack built from A => all_sat ke A m <> [].
+     C02_d_has_table_dissat: a fragment typed "d" has a table dissatisfaction under ANY assets -- this is
+     why the non-canonical dissatisfactions the script accepts (over-satisfied thresh, and_b with one side
+     satisfied, non-zero hash dissatisfaction, ...) never cost completeness: parents only use the
+     dissatisfaction of "d" children.  No _refuted statement arises at this level.
 
    PROVED (table level: "a witness built from A exists" is read as "the specification's
    (dis)satisfaction table all_sat ke A m has an entry"; Theorem A — C02_table_witness_spends_partial —
@@ -37,11 +53,11 @@
      a 2^63-byte signature).
    * C02_mall_complete_partial  (earlier, n-of-n thresholds only) is kept; it is subsumed.
 
-   STILL MISSING for the full statement: Theorem B (every witness the Script semantics accepts that is
-   built from A is, up to the malleations the type system allows, a table entry); raw_pk_h (not modelled:
-   it only arises from decoding). *)
+   STILL MISSING: raw_pk_h (not modelled: it only arises from decoding; the table lists nothing for it);
+   base types other than B at top level (a witness script is B); descriptor wrappers (covered by the
+   per-run check, not by these theorems). *)
 From Verif Require Import Exec Ser Ast Types TypeCheck SatSpec Sat ExecLemmas TheoremA SatProofs CompleteProofs
-  CompleteThresh CompleteNonMall.
+  CompleteThresh CompleteNonMall DenotSpec DenotMain CompleteScript CompleteScriptEx FrameSound DenotExamples.
 
 Theorem C02_table_witness_spends_partial :
   forall (e : env) (ke : keyenv) (A : assets), assets_ok e ke A -> (forall kbs, e_sigok e kbs [] = false) ->
@@ -165,3 +181,88 @@ Example C02_ex_satisfy_mall : satisfy c02x_ke (c02x_se true) (c02x_f true) true 
 Proof. exact c02x_thresh_satisfy_mall. Qed.
 Example C02_ex_satisfy_nonmall : satisfy c02x_ke (c02x_se true) (c02x_f true) false true c02x_thresh = Some [[2; 7]; []; [0; 7]]%N.
 Proof. exact c02x_thresh_satisfy_nonmall. Qed.
+
+(* ---- Script level (Theorem B + canonicalisation + the table-level theorems) ---- *)
+Theorem C02_d_has_table_dissat :
+  forall (ke : keyenv) (A : assets) (m : ms) (t : ty),
+    type_of m = ROk t -> no_multi m -> c_dissat (t_corr t) = true -> all_dsat ke A m <> [].
+Proof. exact dsat_ne. Qed.
+Print Assumptions C02_d_has_table_dissat.
+
+Theorem C02_script_table_entry :
+  forall (e : env) (ke : keyenv) (A : assets), (forall kbs, e_sigok e kbs [] = false) ->
+  forall (m : ms) (t : ty), type_of m = ROk t -> c_base (t_corr t) = BB -> wf e ke m ->
+  forall w, built_from e ke A m w -> accepts e (enc ke m) w = true -> all_sat ke A m <> [].
+Proof. exact script_table_entry. Qed.
+Print Assumptions C02_script_table_entry.
+
+Theorem C02_script_complete_mall :
+  forall (e : env) (ke : keyenv) (A : assets) (se : senv) (f : fill),
+  (forall kbs, e_sigok e kbs [] = false) -> linked ke A se f -> locks_compatible se ->
+  forall (m : ms) (t : ty), type_of m = ROk t -> c_base (t_corr t) = BB -> wf e ke m ->
+  forall rhs, thresh_fit ke se rhs m ->
+  forall w, built_from e ke A m w -> accepts e (enc ke m) w = true ->
+  exists bs, satisfy ke se f true rhs m = Some bs.
+Proof. exact script_complete_mall. Qed.
+Print Assumptions C02_script_complete_mall.
+
+Theorem C02_script_complete_mall_spends :
+  forall (e : env) (ke : keyenv) (A : assets) (se : senv) (f : fill),
+  (forall kbs, e_sigok e kbs [] = false) -> linked ke A se f -> locks_compatible se ->
+  assets_ok e ke A -> (forall ks, length (ksort ke ks) = length ks) ->
+  forall (m : ms) (t : ty), type_of m = ROk t -> c_base (t_corr t) = BB -> wf e ke m ->
+  forall rhs, thresh_fit ke se rhs m ->
+  forall w, built_from e ke A m w -> accepts e (enc ke m) w = true ->
+  exists bs, satisfy ke se f true rhs m = Some bs /\ accepts e (enc ke m) (rev bs) = true.
+Proof. exact script_complete_mall_spends. Qed.
+Print Assumptions C02_script_complete_mall_spends.
+
+Theorem C02_script_complete_nonmall :
+  forall (e : env) (ke : keyenv) (A : assets) (se : senv) (f : fill),
+  (forall kbs, e_sigok e kbs [] = false) -> linked ke A se f -> locks_compatible se ->
+  forall (m : ms) (t : ty), type_of m = ROk t -> c_base (t_corr t) = BB -> wf e ke m ->
+  nm_wf se m -> m_nm (t_mall t) = true -> m_signed (t_mall t) = true ->
+  forall w, built_from e ke A m w -> accepts e (enc ke m) w = true ->
+  exists bs, satisfy ke se f false (m_signed (t_mall t)) m = Some bs.
+Proof. exact script_complete_nonmall. Qed.
+Print Assumptions C02_script_complete_nonmall.
+
+Theorem C02_script_complete_nonmall_spends :
+  forall (e : env) (ke : keyenv) (A : assets) (se : senv) (f : fill),
+  (forall kbs, e_sigok e kbs [] = false) -> linked ke A se f -> locks_compatible se ->
+  assets_ok e ke A -> (forall ks, length (ksort ke ks) = length ks) ->
+  forall (m : ms) (t : ty), type_of m = ROk t -> c_base (t_corr t) = BB -> wf e ke m ->
+  nm_wf se m -> m_nm (t_mall t) = true -> m_signed (t_mall t) = true ->
+  forall w, built_from e ke A m w -> accepts e (enc ke m) w = true ->
+  exists bs, satisfy ke se f false (m_signed (t_mall t)) m = Some bs /\ accepts e (enc ke m) (rev bs) = true.
+Proof. exact script_complete_nonmall_spends. Qed.
+Print Assumptions C02_script_complete_nonmall_spends.
+
+(* what [built_from] says *)
+Example C02_built_from_meaning : forall e ke A m w, built_from e ke A m w ->
+  (forall k sg, In sg w -> sg <> [] -> e_sigok e (kb ke k) sg = true -> a_sig A k <> None) /\
+  (forall k key sg, In key w -> In sg w -> e_hash160 e key = kh ke k -> sg <> [] -> e_sigok e key sg = true -> a_sig A k <> None) /\
+  mok e A (opened_known e A w) m.
+Proof. exact (fun e ke A m w H => conj (cv_sig _ _ _ _ (proj1 H)) (conj (cv_sigh _ _ _ _ (proj1 H)) (proj2 H))). Qed.
+
+(* non-vacuity: or_d(sha256(h), c:pk_k(0)) accepted with the hash dissatisfied by 32 x 0xff -- a stack in
+   NO table; the caller holds the signature only; the model answers [sig0; zeros32], which spends *)
+Example C02_ex_script_mall_hyps :
+  built_from ex_env ex_ke csx_A dx_ord dx_ord_w /\ accepts ex_env (enc ex_ke dx_ord) dx_ord_w = true /\
+  (forall A, ~ In dx_ord_w (all_sat ex_ke A dx_ord)) /\
+  linked ex_ke csx_A csx_se csx_f /\ locks_compatible csx_se /\ assets_ok ex_env ex_ke csx_A /\
+  thresh_fit ex_ke csx_se true dx_ord /\ wf ex_env ex_ke dx_ord.
+Proof. exact (conj csx_ord_built (conj dx_ord_accepts (conj dx_ord_not_in_table (conj csx_linked (conj csx_locks (conj csx_assets_ok (conj csx_ord_fit dx_ord_wf))))))). Qed.
+Example C02_ex_script_mall : satisfy ex_ke csx_se csx_f true true dx_ord = Some [dx_sig 0; zeros32].
+Proof. exact csx_ord_value. Qed.
+Example C02_ex_script_mall_applies :
+  exists bs, satisfy ex_ke csx_se csx_f true true dx_ord = Some bs /\ accepts ex_env (enc ex_ke dx_ord) (rev bs) = true.
+Proof. exact csx_ord_complete. Qed.
+(* non-malleable mode: thresh(2, pk(0), s:pk(1), s:pk(2)), accepted stack [sig0; ""; sig2] *)
+Example C02_ex_script_nonmall_hyps :
+  built_from ex_env ex_ke csx_A c02x_thresh csx_thr_w /\ accepts ex_env (enc ex_ke c02x_thresh) csx_thr_w = true /\
+  nm_wf csx_se c02x_thresh /\ wf ex_env ex_ke c02x_thresh.
+Proof. exact (conj csx_thr_built (conj csx_thr_accepts (conj csx_thr_nmwf csx_thr_wf))). Qed.
+Example C02_ex_script_nonmall_applies :
+  exists bs, satisfy ex_ke csx_se csx_f false true c02x_thresh = Some bs /\ accepts ex_env (enc ex_ke c02x_thresh) (rev bs) = true.
+Proof. exact csx_thr_complete. Qed.
